@@ -9,6 +9,10 @@
 #include <amgcl/coarsening/runtime.hpp>
 #include <amgcl/relaxation/runtime.hpp>
 #include <amgcl/solver/runtime.hpp>
+#include <complex>
+#include <amgcl/value_type/complex.hpp>
+#include <amgcl/value_type/static_matrix.hpp>
+#include <amgcl/adapter/block_matrix.hpp>
 #include "harness_main.hpp"
 
 const char *CHECK_ID = "C01";
@@ -51,10 +55,117 @@ Plan generate(uint64_t seed, uint64_t run, bool thorough) {
     if (p.get("nt") > 8 && !model && p.get("maxiter") > 40) p.set("maxiter", 40, 1);
     draw_schedule(r, p.sched, (int)p.get("nt"));
     draw_vary_params(r, p, 0.5);
+    p.set("valued", (!model && r.chance(0.2)) ? r.range(1, 2) : 0, 0);      // complex / 2x2 block valued system
+    if (p.get("valued") && p.get("n") > 160) p.set("n", 160, 1);
     return p;
 }
 
+Result execute(const Plan &p);
+
+// ---- complex and 2x2-block valued systems: the same truthfulness / budget clauses in the value type's own algebra ---------------
+template <class V> struct vkind;
+template <> struct vkind<std::complex<double> > { static const char* name() { return "complex"; } enum { B = 1 };
+    static std::shared_ptr<amgcl::backend::crs<std::complex<double> > > matrix(const gen::Csr &G, uint64_t seed, bool hermitian) {
+        auto M = std::make_shared<amgcl::backend::crs<std::complex<double> > >(); M->set_size(G.n, G.n, false); for (long i = 0; i <= G.n; ++i) M->ptr[i] = G.ptr[i]; M->set_nonzeros(G.nnz());
+        for (long i = 0; i < G.n; ++i) for (ptrdiff_t j = G.ptr[i]; j < G.ptr[i+1]; ++j) { long c = G.col[j]; M->col[j] = c; long lo = std::min(i, c), hi = std::max(i, c); uint64_t h = sim::hash_combine((uint64_t)lo * 2654435761u + (uint64_t)hi, seed);
+            double im = c == i ? 0.0 : G.val[j] * ((double)((long)(h % 9) - 4) / 16.0); if (hermitian && c < i) im = -im; if (!hermitian && c < i) im = im * 0.5 + G.val[j] / 32.0;
+            M->val[j] = std::complex<double>(G.val[j], im); }
+        return M; }
+    static std::complex<double> rhs(double a, double b) { return std::complex<double>(a, b); } };
+template <> struct vkind<amgcl::static_matrix<double,2,2> > { static const char* name() { return "block2x2"; } enum { B = 2 };
+    static std::shared_ptr<amgcl::backend::crs<amgcl::static_matrix<double,2,2> > > matrix(const gen::Csr &G, uint64_t, bool) {
+        typedef amgcl::static_matrix<double,2,2> BV; if (G.n % 2 || G.n < 2) return std::shared_ptr<amgcl::backend::crs<BV> >();
+        gen::Csr Gc = G; auto As = to_crs(Gc); amgcl::backend::sort_rows(*As); return std::make_shared<amgcl::backend::crs<BV> >(amgcl::adapter::block_matrix<BV>(*As)); }
+    static amgcl::static_matrix<double,2,1> rhs(double a, double b) { amgcl::static_matrix<double,2,1> r; r(0) = a; r(1) = b; return r; } };
+
+template <class V>
+static Result execute_valued(const Plan &p) {
+    namespace m = amgcl::math;
+    typedef amgcl::backend::builtin<V> VB; typedef typename m::rhs_of<V>::type RV;
+    typedef amgcl::make_solver< amgcl::amg<VB, amgcl::runtime::coarsening::wrapper, amgcl::runtime::relaxation::wrapper>, amgcl::runtime::solver::wrapper<VB> > VSolver;
+    Result res;
+    gen::Csr G = gen::make_matrix((int)p.get("family"), p.get("n"), (uint64_t)p.get("mseed"), (int)p.get("contrast"), (int)p.get("aniso"));
+    long coarsening = 1 + p.get("coarsening") % 3, relax = p.get("relax"), solver = p.get("solver");      // Ruge-Stuben is for scalar values only
+    bool hermitian = (p.get("vseed") & 1) != 0;
+    auto Av = vkind<V>::matrix(G, (uint64_t)p.get("mseed"), hermitian);
+    if (!Av) { Plan q = p; q.set("valued", 0, 0); return execute(q); }
+    const long n = (long)Av->nrows; int nt = (int)p.get("nt");
+    bool left = has_pside(solver) && p.get("pside") == 0;
+    double tol = std::pow(10.0, -(double)p.get("tol_exp")); long maxiter = p.get("maxiter"), L = p.get("L");
+    auto sig = [&](const char *oracle, const char *clause, const std::string &detail) {
+        Violation v; v.oracle = oracle; v.add("component", "make_solver"); v.add("clause", clause); v.add("coarsening", coarsening_names[coarsening]); v.add("relax", relax_names[relax]); v.add("solver", solver_names[solver]);
+        v.add("pside", has_pside(solver) ? (left ? "left" : "right") : "n/a"); v.add("family", gen::family_name((int)p.get("family"))); v.add("values", vkind<V>::name()); v.detail = detail; return v; };
+    boost::property_tree::ptree prm;
+    prm.put("precond.coarsening.type", coarsening_names[coarsening]); prm.put("precond.relax.type", relax_names[relax]);
+    prm.put("precond.coarse_enough", std::max<long>(1, p.get("coarse_enough") / vkind<V>::B)); prm.put("precond.npre", p.get("npre")); prm.put("precond.npost", p.get("npre")); prm.put("precond.ncycle", p.get("ncycle"));
+    if (p.get("ncycle") > 1) prm.put("precond.max_levels", 4);
+    prm.put("solver.type", solver_names[solver]); prm.put("solver.maxiter", maxiter); prm.put("solver.tol", tol);
+    if (has_pside(solver)) prm.put("solver.pside", left ? "left" : "right");
+    if (solver == 2) prm.put("solver.L", L);
+    if (solver == 3 || solver == 4 || solver == 5) prm.put("solver.M", p.get("M"));
+    if (solver == 6) prm.put("solver.s", p.get("s"));
+    std::vector<double> a = gen::make_vector(n, (uint64_t)p.get("vseed"), (int)p.get("rhs_kind")), b = gen::make_vector(n, (uint64_t)p.get("vseed") + 3, 0), c = gen::make_vector(n, (uint64_t)p.get("vseed") + 9, 0), d = gen::make_vector(n, (uint64_t)p.get("vseed") + 11, 0);
+    std::vector<RV> f(n), x(n, m::zero<RV>()), f2(n);
+    for (long i = 0; i < n; ++i) { f[i] = vkind<V>::rhs(a[i], b[i]); f2[i] = vkind<V>::rhs(c[i], d[i]); }
+    if (p.get("x0") >= 1) { std::vector<double> e = gen::make_vector(n, (uint64_t)p.get("vseed") + 5, 0); for (long i = 0; i < n; ++i) x[i] = vkind<V>::rhs(e[i], -0.5 * e[i]); }
+    auto vnorm = [&](const std::vector<RV> &v) { long double s2 = 0; for (long i = 0; i < n; ++i) s2 += (long double)m::norm(m::inner_product(v[i], v[i])); return (double)std::sqrt((double)s2); };
+    auto vinf = [&](const std::vector<RV> &v) { double s2 = 0; for (long i = 0; i < n; ++i) s2 = std::max(s2, (double)m::norm(v[i])); return s2; };
+    auto resid_of = [&](const std::vector<RV> &rhs, const std::vector<RV> &y, std::vector<RV> &r) { for (long i = 0; i < n; ++i) { RV t = rhs[i]; for (ptrdiff_t j = Av->ptr[i]; j < Av->ptr[i+1]; ++j) t -= Av->val[j] * y[Av->col[j]]; r[i] = t; } };
+    double x0inf = vinf(x), pamp = 1, plin = 0, pnrm = 1, pnorm = 0;
+    size_t iters = 0; double resid = 0; std::string exc; bool constructed = false;
+    sim::RunStatus st = world(nt, p.sched, [&]() {
+        try {
+            VSolver S(*Av, prm); constructed = true;
+            if (p.get("warmup")) { std::vector<RV> y(n, m::zero<RV>()); try { S(f2, y); } catch (const std::exception &) {} res.faults["warmup_solve_on_same_object"]++; }
+            std::tie(iters, resid) = S(f, x);
+            std::vector<RV> u(n), ug(n), uh(n), h(n), t(n), z(n, m::zero<RV>());
+            S.precond().apply(f, u); S.precond().apply(f2, ug);
+            for (long i = 0; i < n; ++i) h[i] = 2.0 * f[i] - 0.5 * f2[i];
+            S.precond().apply(h, uh);
+            auto amp = [&](const std::vector<RV> &rhs, const std::vector<RV> &pu) { resid_of(z, pu, t); double w = vinf(t), fi = vinf(rhs); return (w == w && fi > 0) ? std::max(1.0, w / fi) : std::numeric_limits<double>::infinity(); };
+            pamp = std::max(amp(f, u), amp(f2, ug));
+            double sc = std::max(vinf(u), vinf(ug)), er = 0; for (long i = 0; i < n; ++i) { RV dlt = uh[i] - (2.0 * u[i] - 0.5 * ug[i]); er = std::max(er, (double)m::norm(dlt)); }
+            plin = (sc > 0 && er == er) ? er / sc : std::numeric_limits<double>::infinity(); pnrm = vinf(f) > 0 ? vinf(u) / vinf(f) : 1;
+            if (left) { std::vector<RV> r(n), pr(n); resid_of(f, x, r); S.precond().apply(r, pr); pnorm = vnorm(pr); }
+        } catch (const std::exception &e) { exc = e.what(); }
+    });
+    res.absorb(st); res.deviations = st.deviations;
+    if (st.status) res.fail(sig("world-terminates", "deadlock-or-budget", st.blocked));
+    std::vector<RV> r(n); resid_of(f, x, r);
+    double fnorm = vnorm(f), rstar = left ? pnorm / fnorm : vnorm(r) / (fnorm > 0 ? fnorm : 1), xinf = vinf(x), finf = vinf(f), ainf = 0;
+    for (long i = 0; i < n; ++i) { double rs = 0; for (ptrdiff_t j = Av->ptr[i]; j < Av->ptr[i+1]; ++j) rs += (double)m::norm(Av->val[j]); ainf = std::max(ainf, rs); }
+    bool x_finite = std::isfinite(xinf);
+    res.hash = sim::hash_combine(res.hash, sim::hash_bytes(x.data(), x.size() * sizeof(RV))); res.hash = sim::hash_combine(res.hash, (uint64_t)iters);
+    res.counts["solves_checked"]++; res.counts[std::string("valued_") + vkind<V>::name()]++;
+    if (exc.empty() && constructed && fnorm > 0) {
+        long maxrow = 1; for (long i = 0; i < n; ++i) maxrow = std::max<long>(maxrow, Av->ptr[i+1] - Av->ptr[i]);
+        double delta = 400.0 * (iters + 1) * 3.0 * (maxrow + 1) * vkind<V>::B * 1.2e-16 * (ainf * std::max(xinf, x0inf) / (finf > 0 ? finf : 1) + 1);
+        delta *= pamp; delta += 100 * plin * (1 + ainf * std::max(xinf, x0inf) / (finf > 0 ? finf : 1) + pnrm); if (left) delta *= 100;
+        bool usable = x_finite && delta < 0.1 * tol;
+        long slack = solver == 2 ? L - 1 : 0;
+        if ((long)iters > maxiter + slack) res.fail(sig("iteration-budget", "iters<=maxiter", fmt("%zu iterations with maxiter %ld (L=%ld)", iters, maxiter, L)));
+        if (!x_finite || !std::isfinite(rstar)) { if (std::isfinite(resid) && resid < 1) res.fail(sig("truthful-residual", "nonfinite-solution-reported-finite", fmt("x or its residual is not finite but the solver reports %.3g after %zu iterations", resid, iters))); res.counts["nonfinite_outcomes"]++; }
+        else if (usable) {
+            if (std::isfinite(resid)) {
+                if (resid < tol && !(rstar < 1.05 * tol + delta)) res.fail(sig("truthful-residual", "reported-converged-but-is-not", fmt("reported %.6g < tol %.3g after %zu iterations, true relative residual %.6g (delta %.3g, nt %d)", resid, tol, iters, rstar, delta, nt)));
+                else if (resid < tol && rstar < tol) { }
+                else if (!(std::fabs(resid - rstar) <= 0.05 * std::max(resid, rstar) + delta)) res.fail(sig("truthful-residual", "reported-differs-from-true", fmt("reported %.6g, true %.6g after %zu iterations (delta %.3g, tol %.3g)", resid, rstar, iters, delta, tol)));
+            } else res.fail(sig("truthful-residual", "finite-solution-reported-nonfinite", fmt("solution is finite with true residual %.3g but the solver reports a non-finite one", rstar)));
+            res.counts["truthfulness_evaluated"]++;
+        } else res.counts["skipped_ill_conditioned_for_tolerance"]++;
+    } else if (!exc.empty()) res.counts["solver_threw"]++;
+    res.nontrivial = iters >= 1 && exc.empty();
+    res.key = sim::hash_combine(gen::digest(G), (uint64_t)(coarsening * 100003 + relax * 1009 + solver * 101 + (left ? 7 : 0) + nt * 13 + 1000003 * vkind<V>::B)); res.key = sim::hash_combine(res.key, (uint64_t)(p.get("vseed") ^ (p.get("maxiter") * 31 + p.get("tol_exp"))));
+    js::Value s = js::Value::object();
+    s.set("values", vkind<V>::name()); s.set("hermitian_part", (long)hermitian); s.set("family", gen::family_name((int)p.get("family"))); s.set("n", n); s.set("coarsening", coarsening_names[coarsening]); s.set("relax", relax_names[relax]); s.set("solver", solver_names[solver]);
+    s.set("pside", has_pside(solver) ? (left ? "left" : "right") : "n/a"); s.set("nt", nt); s.set("iters", (long)iters); s.set("reported", resid); s.set("true", rstar);
+    res.sample = s;
+    return res;
+}
+
 Result execute(const Plan &p) {
+    if (p.get("valued", 0) == 1 && !p.get("model")) return execute_valued<std::complex<double> >(p);
+    if (p.get("valued", 0) == 2 && !p.get("model")) return execute_valued<amgcl::static_matrix<double,2,2> >(p);
     Result res;
     bool model = p.get("model") != 0;
     gen::Csr A = gen::make_matrix((int)p.get("family"), p.get("n"), (uint64_t)p.get("mseed"), (int)p.get("contrast"), (int)p.get("aniso"));
@@ -129,7 +240,11 @@ Result execute(const Plan &p) {
     if (exc.empty() && constructed && fnorm > 0) {
         // floor below which the comparison is rounding: loss of accuracy in forming f - A x (and its recurrence)
         // (the initial guess enters too: r0 = f - A x0 carries an absolute error u*|A|*|x0| through every recurrence)
-        double delta = (double)(200.0L * (iters + 1) * n * 1.2e-16L * (ainf * std::max(xinf, (long double)x0inf) / (finf > 0 ? finf : 1) + 1));
+        long maxrow = 1; for (long i = 0; i < n; ++i) maxrow = std::max<long>(maxrow, A.ptr[i+1] - A.ptr[i]);
+        // the gap between a recursively updated and the true residual grows with the number of updates and with the length of the
+        // rows of A (the accumulations of one spmv), not with n (Greenbaum 1997); factor 3 on top (0 violations in 120 000 solves at 1)
+        double nn = 3.0 * (double)(maxrow + 1);
+        double delta = (double)(200.0L * (iters + 1) * nn * 1.2e-16L * (ainf * std::max(xinf, (long double)x0inf) / (finf > 0 ? finf : 1) + 1));
         delta *= pamp;                           // a preconditioner that amplifies by 1e6 costs six digits
         delta += 100 * plin * (double)(1 + ainf * std::max(xinf, (long double)x0inf) / (finf > 0 ? finf : 1) + pnrm);     // measured linearity defect of P
         if (left) delta *= 100;                  // one extra application of a possibly ill-conditioned preconditioner
